@@ -1,0 +1,10 @@
+//go:build !verif
+
+package utils
+
+import (
+	"github.com/projectcalico/calico/cni-plugin/pkg/types"
+	client "github.com/projectcalico/calico/libcalico-go/lib/clientv3"
+)
+
+func verifClient(types.NetConf) (client.Interface, error, bool) { return nil, nil, false }
